@@ -219,8 +219,15 @@ func (dw *DiskWriter) HandleChange(kind ChangeKind, p string, fi os.FileInfo, er
 		}
 	default:
 		isRegularFile = true
-		file, err := os.OpenFile(newPath, os.O_CREATE|os.O_WRONLY, fi.Mode())
+		// O_EXCL: the name must be a new entry. An existing one (a symlink
+		// of an earlier entry or transfer that happens to carry the
+		// temporary name) would be opened and written through.
+		file, err := os.OpenFile(newPath, os.O_CREATE|os.O_EXCL|os.O_WRONLY, fi.Mode())
 		if err != nil {
+			if errors.Is(err, syscall.EEXIST) {
+				// as for directories: try again (with another temporary name)
+				return dw.HandleChange(kind, p, fi, nil)
+			}
 			return errors.Wrapf(err, "failed to create %s", newPath)
 		}
 		if dw.opt.SyncDataCb != nil {
